@@ -15,6 +15,9 @@ def dispatch(prop, tier, seed):
     if prop in ('C02', 'C03', 'C04', 'C11', 'C18'):
         from . import seqlock_checks
         return getattr(seqlock_checks, 'check_' + prop.lower())(tier, seed)
+    if prop in ('C07', 'C10'):
+        from . import daemon_extract
+        return getattr(daemon_extract, 'check_' + prop.lower())(tier, seed)
     raise SystemExit('no check for ' + prop)
 
 
